@@ -943,16 +943,25 @@ impl Prop for C20 {
     }
 
     fn preludes(&self, _sc: &WsSc) -> Vec<WsSc> {
-        [SizeMode::Compressed, SizeMode::Uncompressed]
-            .into_iter()
-            .map(|mode| WsSc {
+        let mut v = Vec::new();
+        for mode in [SizeMode::Compressed, SizeMode::Uncompressed] {
+            v.push(WsSc {
                 mode,
                 steps: vec![WsStep::Send(vec![WsMsg::Binary(mode.pong().to_vec())])],
                 end: WsEnd::Close,
                 late_read: false,
                 close_code: 0,
-            })
-            .collect()
+            });
+            // a connection abandoned with a partial frame received
+            v.push(WsSc {
+                mode,
+                steps: vec![WsStep::Send(vec![WsMsg::Binary(vec![mode.size_byte(8), 4, 1])])],
+                end: WsEnd::None,
+                late_read: false,
+                close_code: 0,
+            });
+        }
+        v
     }
 
     fn rule(&self) -> String {
